@@ -171,6 +171,24 @@ OpFilter(sc, c, v) ==
 OpBindVals == OpValsF \cup OpValsG \cup OpValsM
 NamesOp == <<"k", "p", "q", "r", "value", "x", "y", "z">>
 
+------------------------------------------------------------------------------
+(* C20: clear_config after any history *)
+ClrConfs == {MacF, MacG, GinMacro, GinConstant, GinSingleton, LockH}
+ClrRegs == {{MacF, MacG, GinMacro, GinConstant, GinSingleton}}
+S1Call == R(<<"gin","singleton">>, <<"s1">>, "call")
+ClrValsF == { L1, L2, Pct(<<"X">>), Pct(<<"W">>), S1Call, R(<<"m","g">>, <<>>, "call") }
+ClrFilter(sc, c, v) ==
+  \/ c.sel = <<"m","f">> /\ v \in ClrValsF /\ sc \in {<<>>, <<"W">>}
+  \/ c.sel = <<"gin","macro">> /\ v \in {L1, L2} /\ sc \in {<<"W">>, <<"X">>}
+  \/ c.sel = <<"m","g">> /\ v \in {L1} /\ sc = <<>>
+  \/ c.sel = <<"gin","singleton">> /\ v = R(<<"m","g">>, <<>>, "bare") /\ sc = <<"s1">>
+ClrBindVals == ClrValsF \cup {R(<<"m","g">>, <<>>, "bare")}
+ClrHooks == {
+  [id |-> "h1", rets |-> {HookKey(<<>>, <<"f">>, "p", L1)}, raises |-> FALSE],
+  [id |-> "h4", rets |-> {}, raises |-> TRUE],
+  [id |-> "h7", rets |-> {}, raises |-> FALSE] }
+NamesClr == <<"constructor", "p", "q", "value", "x">>
+
 \* C07's replay clause speaks about a fixed configuration followed by calls
 BindsThenCalls == (okeys # {}) => (out.op # "Bind")
 OperBound == Cardinality(okeys) <= 2
